@@ -166,6 +166,8 @@ func runC17(ctx *Ctx) {
 	pn := newCorr("pagenum")
 	ls := newCorr("linkscore")
 	defer ls.run(ctx)
+	fol := newCorr("findoutlink")
+	defer fol.run(ctx)
 	pgi := newCorr("pageinfo")
 	defer pgi.run(ctx)
 	nsc := newCorr("numberscan")
@@ -206,7 +208,7 @@ func runC17(ctx *Ctx) {
 						cellNo++
 						if cellNo%16 == 3 && page != nil && ctx.Replay == "" {
 							// the per-anchor decisions of the prev/next finder on a sample of the cells
-							addLinkScoreCases(ls, rep, src, page, replay)
+							addLinkScoreCases(ls, fol, rep, src, page, replay)
 							addPageInfoCases(pgi, rep, src, page, replay)
 						}
 						if cellNo%4 == 1 && page != nil && ctx.Replay == "" {
